@@ -58,3 +58,15 @@ Theorem C12_justify_opts_lines : forall (C : Classifier) (U : Upper) width opts 
     Ok (with_text e (join (o_linesep (with_defaults opts)) (mapped_lines (just_line width) opts e))).
 Proof. intros C U. exact justify_opts_lines. Qed.
 Print Assumptions C12_justify_opts_lines.
+
+(* JustifyLine as an explicit function: the collapsed line, or its words interleaved with gap
+   sizes that depend only on the number of words and on the missing width *)
+Theorem C12_justify_line_explicit : forall (C : Classifier) (U : Upper) text w c,
+  collapse_space text [10] = Ok c ->
+  let words := split c [SP] in
+  let g := zlen words - 1 in
+  justify_line text w =
+    Ok (if (w <=? glen c) || (g <? 1) then c
+        else concat (interleave words (gaps_after (Z.to_nat (w - glen c)) g (repeat 1%nat (length words - 1)) 0 false))).
+Proof. intros C U. exact justify_line_explicit. Qed.
+Print Assumptions C12_justify_line_explicit.
